@@ -18,9 +18,25 @@ DDL modelled (memory database semantics as observed through the engine): CREATE 
 (dropping a table drops its triggers), ADD COLUMN [FIRST | AFTER], DROP COLUMN (of a column no key
 mentions), RENAME COLUMN (keys follow), CREATE / DROP INDEX, ADD / DROP PRIMARY KEY (key columns
 become NOT NULL), CREATE / DROP VIEW, CREATE / DROP TRIGGER.
+* `routinesView` — `routinesRowIter` substitutes an *empty* privilege set for a missing one, so ROUTINES
+  (and SHOW PROCEDURE STATUS, which is answered from it) list nothing with account management disabled.
+
+Key order: a key is a *list* of column names in declaration order, which need not be the column
+order of the table (`PRIMARY KEY (b, a)`); STATISTICS / SHOW INDEX / KEY_COLUMN_USAGE number the key
+columns in that order and SHOW CREATE TABLE prints them in that order. `showCreatePk` follows
+sql/rowexec/show_iters.go `produceCreateTableStatement`, which goes through the *ordinals* of the key
+columns in the schema (`pkSchema.PkOrdinals`, key order) and reads the names back from the schema.
+
+Routines: stored procedures with their characteristics ([NOT] DETERMINISTIC, the four SQL data access
+classes, SQL SECURITY). `routinesLoop` follows the loop of `routinesRowIter`: three variables declared
+outside the loop, re-initialised at the top of every iteration, then overwritten by the characteristics
+of the procedure at hand; `routineRow` is the row as a function of that one procedure alone.
+
+DDL modelled additionally: CREATE / DROP PROCEDURE.
 Not modelled (kept out of the generator): RENAME TABLE (triggers keep the old table name and every
 later SHOW TRIGGERS / DROP TABLE in that database fails), DROP COLUMN of a column of a UNIQUE index
-(panics), foreign keys, checks, routines, events, columns of views, table names differing only in case.
+(panics), foreign keys, checks, events (these three only through the model-free per-object oracle of the
+harness), functions, procedure parameters and bodies, columns of views, table names differing only in case.
 -/
 namespace Gms.Catalog
 
@@ -56,13 +72,26 @@ structure Trig where
   event : String
 deriving DecidableEq, Repr
 
+/-- A routine characteristic that `routinesRowIter` looks at (plan.Characteristic_*). -/
+inductive Chr | det | notDet | containsSql | noSql | readsSql | modifiesSql
+deriving DecidableEq, Repr
+
+/-- A stored procedure: its characteristics in the order written, and whether SQL SECURITY INVOKER
+was stated (plan.Procedure.SecurityContext). -/
+structure Proc where
+  name : String
+  chars : List Chr
+  invoker : Bool
+deriving DecidableEq, Repr
+
 structure Cat where
   tables : List Tbl
   views : List View
   trigs : List Trig
+  procs : List Proc
 deriving DecidableEq, Repr
 
-def Cat.empty : Cat := ⟨[], [], []⟩
+def Cat.empty : Cat := ⟨[], [], [], []⟩
 
 def Cat.table? (c : Cat) (n : String) : Option Tbl := c.tables.find? (·.name = n)
 def Cat.hasName (c : Cat) (n : String) : Bool := c.tables.any (·.name = n) || c.views.any (·.name = n)
@@ -85,6 +114,8 @@ inductive Ddl
   | dropView (n : String)
   | createTrigger (tr : Trig)
   | dropTrigger (n : String)
+  | createProc (p : Proc)
+  | dropProc (n : String)
 deriving Repr
 
 def nodupNames : List String → Bool
@@ -175,6 +206,8 @@ def apply (c : Cat) : Ddl → Option Cat
     if c.trigs.any (·.name = tr.name) || !c.tables.any (·.name = tr.table) then none
     else some { c with trigs := c.trigs ++ [tr] }
   | .dropTrigger n => if c.trigs.any (·.name = n) then some { c with trigs := c.trigs.filter (·.name ≠ n) } else none
+  | .createProc p => if c.procs.any (·.name = p.name) then none else some { c with procs := c.procs ++ [p] }
+  | .dropProc n => if c.procs.any (·.name = n) then some { c with procs := c.procs.filter (·.name ≠ n) } else none
 
 /-- A history: rejected statements leave the catalog unchanged. -/
 def applyAll (c : Cat) : List Ddl → Cat
@@ -307,5 +340,98 @@ def viewsRows (c : Cat) : List Row := c.views.map fun v => [v.name, v.text]
 /-- `privSetMissing`: the session has no cached privilege set (account management disabled). -/
 def triggersView (privSetMissing : Bool) (c : Cat) : List Row := if privSetMissing then [] else showTriggers c
 def viewsView (privSetMissing : Bool) (c : Cat) : List Row := if privSetMissing then [] else viewsRows c
+
+/-! ### key order: SHOW CREATE TABLE -/
+
+/-- `pkSchema.PkOrdinals`: the positions of the key columns in the schema, in key order. -/
+def pkOrdinals (t : Tbl) : List Nat := t.pk.map fun n => (t.cols.map (·.name)).idxOf n
+
+/-- `produceCreateTableStatement`: `for _, idx := range pkOrdinals { primaryKeyCols = append(primaryKeyCols, schema[idx].Name) }`. -/
+def showCreatePk (t : Tbl) : List String := (pkOrdinals t).filterMap fun k => (t.cols[k]?).map (·.name)
+
+/-- One key clause of SHOW CREATE TABLE: (name, unique, the column list as printed). -/
+def keyLine (i : Idx) : Row := [i.name, if i.unique then "1" else "0", ",".intercalate i.cols]
+
+/-- The key clauses of SHOW CREATE TABLE in the order printed: PRIMARY KEY (through the ordinals), then
+`i.indexes` = `GetIndexes` without PRIMARY. -/
+def showCreateKeys (t : Tbl) : List Row :=
+  (if (showCreatePk t).isEmpty then [] else [keyLine ⟨"PRIMARY", true, showCreatePk t⟩]) ++ (sortIdxs t.idxs).map keyLine
+
+/-- The column names of SHOW CREATE TABLE in the order printed. -/
+def showCreateCols (t : Tbl) : List String := t.cols.map (·.name)
+
+/-! ### routines -/
+
+/-- `securityType`, `isDeterministic`, `sqlDataAccess` of `routinesRowIter` (declared outside the loops). -/
+structure RVars where
+  sec : String
+  det : String
+  acc : String
+deriving DecidableEq, Repr
+
+/-- The three assignments at the top of the loop body. -/
+def resetVars (_ : RVars) : RVars := ⟨"DEFINER", "NO", "CONTAINS SQL"⟩
+
+/-- The if / else-if chains over one characteristic. -/
+def chrStep (v : RVars) : Chr → RVars
+  | .det => { v with det := "YES" }
+  | .notDet => { v with det := "NO" }
+  | .containsSql => { v with acc := "CONTAINS SQL" }
+  | .noSql => { v with acc := "NO SQL" }
+  | .readsSql => { v with acc := "READS SQL DATA" }
+  | .modifiesSql => { v with acc := "MODIFIES SQL DATA" }
+
+/-- The loop over the procedures with its loop-carried variables: rows
+(routine_name, is_deterministic, sql_data_access, security_type). -/
+def routinesLoop : RVars → List Proc → List Row
+  | _, [] => []
+  | v, p :: rest =>
+    let v1 := resetVars v
+    let v2 := p.chars.foldl chrStep v1
+    let v3 := if p.invoker then { v2 with sec := "INVOKER" } else v2
+    [p.name, v3.det, v3.acc, v3.sec] :: routinesLoop v3 rest
+
+def isDetChr : Chr → Bool
+  | .det | .notDet => true
+  | _ => false
+
+/-- Spec: the *last* [NOT] DETERMINISTIC written decides; default NO. -/
+def detOf (chars : List Chr) : String :=
+  match (chars.filter isDetChr).getLast? with
+  | some .det => "YES"
+  | _ => "NO"
+
+def isAccChr : Chr → Bool
+  | .det | .notDet => false
+  | _ => true
+
+/-- Spec: the *last* data access class written decides; default CONTAINS SQL. -/
+def accOf (chars : List Chr) : String :=
+  match (chars.filter isAccChr).getLast? with
+  | some .noSql => "NO SQL"
+  | some .readsSql => "READS SQL DATA"
+  | some .modifiesSql => "MODIFIES SQL DATA"
+  | _ => "CONTAINS SQL"
+
+/-- Spec: the ROUTINES row of a procedure is a function of that procedure alone. -/
+def routineRow (p : Proc) : Row := [p.name, detOf p.chars, accOf p.chars, if p.invoker then "INVOKER" else "DEFINER"]
+
+def insertProc (p : Proc) : List Proc → List Proc
+  | [] => [p]
+  | q :: rest => if p.name < q.name then p :: q :: rest else q :: insertProc p rest
+
+/-- The procedures of a database are iterated sorted by name. -/
+def sortProcs (l : List Proc) : List Proc := l.foldr insertProc []
+
+/-- information_schema.ROUTINES (routine_name, is_deterministic, sql_data_access, security_type), code's
+rule: the loop with carried variables; nothing without a privilege set. -/
+def routinesView (privSetMissing : Bool) (c : Cat) : List Row :=
+  if privSetMissing then [] else routinesLoop ⟨"", "", ""⟩ (sortProcs c.procs)
+
+/-- Spec: one row per existing procedure, each computed from that procedure alone. -/
+def routinesSpec (c : Cat) : List Row := (sortProcs c.procs).map routineRow
+
+/-- SHOW PROCEDURE STATUS (name, security_type): answered from information_schema.ROUTINES. -/
+def showProcStatus (rows : List Row) : List Row := rows.map fun r => [r.getD 0 "", r.getD 3 ""]
 
 end Gms.Catalog
